@@ -96,6 +96,12 @@ func checkHistory(c histCase) (fails []h.Failure) {
 			default:
 				s.ExecMethod(op.Name, []r.Element{value.NewString(op.Arg)})
 			}
+			// every member of a text answers with a NEW value: the object keeps the characters
+			// it was made of (its length and character array are those of the text written)
+			if now := s.GetValue(); now != c.Text {
+				fails = append(fails, h.Failure{Sig: "history/receiver-changed", Msg: fmt.Sprintf("text %q after %s\nthe object now holds %q (%d characters instead of %d)", c.Text, strings.Join(hist, "; "), now, len([]rune(now)), len([]rune(c.Text)))})
+				return
+			}
 			if f := invariants(s); f != nil {
 				f.Msg = fmt.Sprintf("text %q after %s\n%s", c.Text, strings.Join(hist, "; "), f.Msg)
 				fails = append(fails, *f)
